@@ -33,7 +33,7 @@ let () =
            Printf.printf "%s %s\n" (hex (vec_dist2 fops a b)) (String.concat " " (List.map hex (vec_grad fops a b)))
          | "DV" -> let pbc = ni () <> 0 in let hc = ni () <> 0 in let cell = v3 () in let a = v3 () in let b = v3 () in
            let c = if hc then Some cell else None in
-           Printf.printf "%s %s\n" (hex (dv_dist2 fops pbc c a b)) (p3 (dv_lgrad fops pbc c a b))
+           Printf.printf "%s %s %s\n" (hex (dv_dist2 fops pbc c a b)) (p3 (dv_lgrad fops pbc c a b)) (p3 (dv_rgrad fops pbc c a b))
          | "ISC" -> let a = nf () in let b = nf () in let l = nf () in Printf.printf "%s\n" (hex (sc_interp fops a b l))
          | "IV3" -> let a = v3 () in let b = v3 () in let l = nf () in Printf.printf "%s\n" (p3 (v3_interp fops a b l))
          | "IUV" -> let a = v3 () in let b = v3 () in let l = nf () in
@@ -52,8 +52,8 @@ let () =
          | "CD" | "CW" ->
            let kind = next () in let wc = nf () in let n = ni () in
            let k = (match kind with
-               | "distance" | "eulerTheta" | "polarTheta" | "tilt" | "orientationAngle" -> KScalar
-               | "dihedral" | "spinAngle" | "eulerPhi" | "eulerPsi" | "polarPhi" -> KPeriodic (360.0, wc)
+               | "distance" | "eulerTheta" | "polarTheta" | "tilt" | "orientationAngle" | "dihedralCoeff2" -> KScalar
+               | "dihedral" | "spinAngle" | "eulerPhi" | "eulerPsi" | "polarPhi" | "dihedralSum" -> KPeriodic (360.0, wc)
                | "distanceDir" -> KUnit
                | "orientation" -> KQuat
                | "cartesian" | "distancePairs" -> KVector
